@@ -83,7 +83,7 @@ type relOp struct {
 
 type bridgeHist struct {
 	lh        *lockHist
-	mutNext   int // next deposit mutator (C03): mutators are used in turn
+	mutNext   int  // next deposit mutator (C03): mutators are used in turn
 	quiet     bool // the bridge workload runs as traffic only (C07): its oracles belong to other checks and are not reported here
 	bc        *world.BtcChain
 	voted     map[uint64][]byte
